@@ -80,7 +80,8 @@ L23 = ("; a sample of the same calls is recorded stage by stage (hook H1) and va
        "PositionOps, NSPositionOps, BKOps, RouteOps (layer 3; deviations are DRIFT diagnostics, verdicts stay with layer 1)")
 MODELS = {
     "C02": "TLC exhaustive: Pipeline.tla composition theorem T1 (edge-list surgery of the seven stages returns the input's edge bag)",
-    "C04": "TLC exhaustive: Position.tla (SinkColoring / VAlign / PackRight on every small layered graph), Position.tla + NSPositionOps (the network-simplex positioner: auxiliary graph, weighted simplex, hbalance), NetSimplex.tla in positioner mode (weights, minimum lengths)",
+    "C03": "TLC exhaustive: Compose.tla composition theorem T2 (every drawing that the phase contracts of layer 2 allow satisfies C03_Fail = C04_Fail = {})",
+    "C04": "TLC exhaustive: Compose.tla composition theorem T2 (phase contracts imply C03 and C04), Position.tla (SinkColoring / VAlign / PackRight on every small layered graph), Position.tla + NSPositionOps (the network-simplex positioner: auxiliary graph, weighted simplex, hbalance), NetSimplex.tla in positioner mode (weights, minimum lengths)",
     "C05": "TLC exhaustive: Position.tla + RouteOps!BuildRects6 (the spline router's corridors are well-formed in the non-degenerate class)",
     "C10": "TLC exhaustive: NetSimplex.tla (every connected DAG multigraph of the bound, one loop iteration per step: Feasible, TreeIsSpanning, CutValuesRight, Optimal vs brute force, Contiguous)",
     "C11": "TLC exhaustive: LongestPath.tla (every DAG of the bound x every visit order of the nodes)",
